@@ -14,7 +14,7 @@
    and the specification oracle (alpha-equivalence of decoded input and output). *)
 From OxiVerif Require Import Base.Common Spec.Adam7 Spec.Sem Model.Types Model.Options Model.Color Model.Palette Model.Reductions Model.Evaluate Model.Optimize
   Proofs.Bridge Proofs.PixelProofs Proofs.ImageLift Proofs.LiftColor Proofs.LiftAlpha Proofs.PipelineLossless
-  Spec.Decode Model.Filters Proofs.AlphaLine Proofs.AlphaStream Proofs.EmittedStream.
+  Spec.Decode Spec.DecodeFile Model.Filters Model.Headers Model.PngData Proofs.AlphaLine Proofs.AlphaStream Proofs.EmittedStream Proofs.OutputDecode Proofs.FileToFile.
 
 Theorem C03_partial_transparent_rgba : forall d r g b r' g' b',
   match color_of_samples SRGBA d [r; g; b; 0], color_of_samples SRGBA d [r'; g'; b'; 0] with
@@ -131,3 +131,23 @@ Theorem C03_emitted_stream_alpha_partial : forall (L : leaves) e o img max_size 
     pic_aequiv pic pic'.
 Proof. exact emitted_stream_alpha_partial. Qed.
 Print Assumptions C03_emitted_stream_alpha_partial.
+
+(* FILE TO FILE with alpha optimisation allowed: the in-memory entry point returns the input bytes or the serialisation of a PngData
+   that the specification's whole-file decoder maps to a picture alpha-equivalent to the one it decodes from the input file *)
+Theorem C03_file_to_file_partial : forall (L : leaves) e o (inflate : list Z -> option (list Z)) bytes out pic nm ih rest,
+  scale_16 o = false ->
+  bytes_ok bytes ->
+  spec_parse_png bytes = Some ((nm, ih) :: rest) ->
+  spec_decode_chunks inflate ((nm, ih) :: rest) = Some pic ->
+  List.filter (named spec_IHDR) rest = [] ->
+  (length (List.filter (named spec_PLTE) rest) <= 1)%nat -> (length (List.filter (named spec_tRNS) rest) <= 1)%nat ->
+  (forall x n y, z_inflate e x n = Ok y -> inflate x = Some y /\ bytes_ok y) ->
+  (forall d s, inflate (z_deflate e d s) = Some s) ->
+  (forall p, from_slice e bytes o = Ok p ->
+     spec_raw_size (width (hdr (raw p))) (height (hdr (raw p))) (bpp (hdr (raw p))) (interlaced (hdr (raw p))) true <= usize_max /\
+     wf_ctype (ctype (hdr (raw p))) (depth (hdr (raw p)))) ->
+  optimize_from_memory e o bytes = Ok out ->
+  out = bytes \/ exists p', out = output p' /\
+    (container_ok p' -> exists pic', spec_decode_png inflate (output p') = Some pic' /\ pic_aequiv pic pic').
+Proof. exact optimize_from_memory_alpha_partial. Qed.
+Print Assumptions C03_file_to_file_partial.
